@@ -84,7 +84,7 @@ Lemma step_post_rel : forall f1 f2 e a b, dsim f1 f2 ->
   snd (step_post f1 e a b) = snd (step_post f2 e a b).
 Proof.
   intros f1 f2 e a b Hd. prep f1 f2 Hd.
-  unfold step_post, step_discard. red_all.
+  unfold step_post, step_discard, step_discard_at, held_nonneg. red_all.
   repeat (both_match; red_all).
   all: leaf Htb Hwov Hcov Ha.
 Qed.
